@@ -3,6 +3,7 @@ package main
 import (
 	"bytes"
 	"context"
+	"crypto/sha256"
 	"errors"
 	"fmt"
 	"io"
@@ -58,15 +59,49 @@ func blockData(i int) []byte {
 	return append(d, bytes.Repeat([]byte{byte(i)}, (i*7)%40)...)
 }
 
+// Key families (ids >= 100, see harness/concspec.go cMhKey): id = 100 + 10*g + v; all members of
+// family g carry the same 32 digest bytes, the variants differ in CID version / codec / multihash code.
+func familyDigest(g int) []byte {
+	d := sha256.Sum256([]byte(fmt.Sprintf("c08-family-digest-%d", g)))
+	return d[:]
+}
+
+func cidOf(i int, data []byte) cid.Cid {
+	if i < 100 {
+		h, err := mh.Sum(data, mh.SHA2_256, -1)
+		if err != nil {
+			panic(err)
+		}
+		return cid.NewCidV1(cid.Raw, h)
+	}
+	g, v := (i-100)/10, i%10
+	code := uint64(mh.SHA2_256)
+	switch {
+	case v == 3 || v == 4:
+		code = mh.SHA3_256
+	case v >= 5:
+		code = mh.BLAKE2B_MIN + 31 // blake2b-256
+	}
+	h, err := mh.Encode(familyDigest(g), code)
+	if err != nil {
+		panic(err)
+	}
+	switch v {
+	case 1:
+		return cid.NewCidV1(cid.DagProtobuf, h)
+	case 2:
+		return cid.NewCidV0(h)
+	case 4:
+		return cid.NewCidV1(cid.DagCBOR, h)
+	}
+	return cid.NewCidV1(cid.Raw, h)
+}
+
 // grow makes the table cover ids 0..max.
 func (t *blockTab) grow(max int) {
 	for i := len(t.data); i <= max; i++ {
 		d := blockData(i)
-		h, err := mh.Sum(d, mh.SHA2_256, -1)
-		if err != nil {
-			panic(err)
-		}
-		c := cid.NewCidV1(cid.Raw, h)
+		c := cidOf(i, d)
 		b, err := blocks.NewBlockWithCid(d, c)
 		if err != nil {
 			panic(err)
@@ -76,7 +111,10 @@ func (t *blockTab) grow(max int) {
 		t.keys = append(t.keys, c.KeyString())
 		t.blks = append(t.blks, b)
 		t.byData[string(d)] = uint64(i)
-		t.byHash[string(h)] = uint64(i)
+		// listings carry the multihash only: the smallest id with that multihash stands for it
+		if _, seen := t.byHash[string(c.Hash())]; !seen {
+			t.byHash[string(c.Hash())] = uint64(i)
+		}
 	}
 }
 
@@ -391,7 +429,7 @@ func readFinal(w *workJ) (final []uint64, indexok int) {
 		}
 		return final, 0
 	}
-	br, err := carv2.NewBlockReader(f)
+	br, err := carv2.NewBlockReader(f, carv2.WithTrustedCAR(true))
 	if err != nil {
 		f.Close()
 		return final, 0
